@@ -20,7 +20,7 @@ static long total;
 static int part_sites, inj_mode = VM_INJ_ERROR, maxdepth = 2;
 static char ref_probe[16384];
 static int kindset[64], nkindset;
-static int leafset[32], nleafset;
+static int leafset[128], nleafset;
 
 /* ------------------------------------------------------------------ one run of a shape */
 typedef struct { long n; int ok, hits, probe_ok; unsigned changed; char err[120]; } result_t;
